@@ -6,7 +6,7 @@ namespace Pydjinni.Gen
 
 /-- `CppCliBaseType.namespace` -/
 def cliNamespace (c : CliCfg) (ns : List String) : String :=
-  "::".intercalate (c.ns ++ ns.map (convert c.nsStyle))
+  joinS "::" (c.ns ++ ns.map (convert c.nsStyle))
 
 /-- `CppCliBaseType.typename` / `CppCliRecord.typename`: `f"::{namespace}::{name}"` (also when the namespace is empty) -/
 def cliUserTypename (c : CliCfg) (u : UInfo) : String :=
@@ -18,6 +18,11 @@ def cliReference : TDef → Bool
   | .user u => !(u.prim == .enum || u.prim == .flags)
   | .func _ _ _ _ _ => true
 
+/-- the steps of `typename(type_ref)` on the name of the definition: `Nullable<>` for optional value types, generic
+    arguments, the handle `^` for reference types -/
+def cliShape (reference optional : Bool) (name : String) (args : List String) : String :=
+  applyArgs (if optional && !reference then "System::Nullable<" ++ name ++ ">" else name) args ++ (if reference then "^" else "")
+
 mutual
 /-- `type_def.cppcli.typename` -/
 def cliDefTypename (c : CliCfg) : TDef → String
@@ -26,16 +31,12 @@ def cliDefTypename (c : CliCfg) : TDef → String
   | .func u anonymous _ params ret =>
     if anonymous then
       match ret with
-      | some r => "System::Func<" ++ ", ".intercalate (cliTypenames c params ++ [cliTypename c r]) ++ ">"
-      | none => if params.isEmpty then "System::Action" else "System::Action<" ++ ", ".intercalate (cliTypenames c params) ++ ">"
+      | some r => "System::Func<" ++ joinS ", " (cliTypenames c params ++ [cliTypename c r]) ++ ">"
+      | none => applyArgs "System::Action" (cliTypenames c params)
     else cliUserTypename c u
 /-- module-level `typename(type_ref)` (synchronous) -/
 def cliTypename (c : CliCfg) : RType → String
-  | .mk d args optional =>
-    let out := cliDefTypename c d
-    let out := if optional && !cliReference d then "System::Nullable<" ++ out ++ ">" else out
-    let out := if args.isEmpty then out else out ++ "<" ++ ", ".intercalate (cliTypenames c args) ++ ">"
-    out ++ (if cliReference d then "^" else "")
+  | .mk d args optional => cliShape (cliReference d) optional (cliDefTypename c d) (cliTypenames c args)
 def cliTypenames (c : CliCfg) : List RType → List String
   | [] => []
   | t :: ts => cliTypename c t :: cliTypenames c ts
@@ -52,8 +53,8 @@ def cliHeader (c : CliCfg) : TDef → String
   | .builtin _ => "pydjinni/cppcli/Marshal.hpp"
   | .user u =>
     let n := if u.prim == .record && u.targets.contains "cppcli" then u.name ++ "_base" else u.name
-    "/".intercalate (u.ns ++ [convert c.fileStyle n ++ ".hpp"])
-  | .func u _ _ _ _ => "/".intercalate (u.ns ++ [convert c.fileStyle u.name ++ ".hpp"])
+    joinS "/" (u.ns ++ [convert c.fileStyle n ++ ".hpp"])
+  | .func u _ _ _ _ => joinS "/" (u.ns ++ [convert c.fileStyle u.name ++ ".hpp"])
 
 /-! ## header skeleton -/
 
